@@ -19,6 +19,10 @@ MUT_CALLS = {
               dict(op="create_file", path="a/b/c/newf", oflags=O["RDWR"], mode=0o600), dict(op="mkdir_all", path="a/b/c/x/y", mode=0o755),
               dict(op="mkdir_all", path="a/new/x", mode=0o755), dict(op="remove_file", path="a/b/c/f"), dict(op="remove_dir", path="a/b/c"),
               # a missing component followed by "..": the attacker creates it between two attempts of the partial lookup
+              # down, then ".." twice without lexically reaching the root, then a missing component (an in-root rename that
+              # makes the walked directory shallower turns the ".." steps into an escape); with and without NO_SYMLINKS
+              dict(op="mkdir_all", path="a/b/c/../../x/escaped", mode=0o755), dict(op="mkdir_all", path="a/b/c/../../x/escaped", mode=0o755, nosym=True),
+              dict(op="create", path="a/b/c/../../newf", kind="file", mode=0o644, nosym=True),
               dict(op="mkdir_all", path="nx/../../pwned", mode=0o755), dict(op="mkdir_all", path="a/nx/../../../pwned", mode=0o755), dict(op="mkdir_all", path="a/b/nx/../../../../out/pw", mode=0o755),
               dict(op="remove_all", path="a/b"), dict(op="rename", src="a/b/c/f", dst="e/g", flags=0), dict(op="rename", src="a/b", dst="e/b2", flags=0)],
     "links": [dict(op="create", path="la/c/new", kind="file", mode=0o644), dict(op="create_file", path="ldd/newf", oflags=O["RDWR"], mode=0o600),
